@@ -2390,6 +2390,17 @@ class Interp:
                 return Num(sp.floor(args[0].e * scale + sp.Rational(1, 2)) / scale)
             if name in ("round", "divmod", "pow"):
                 raise Unsupported(f"{name}() of an abstract number at {site}")
+        if name in ("min", "max", "abs", "round", "pow", "divmod") and args and not kwargs and all(_isnum(a_) for a_ in args) and (
+                len(args) > 1 or name in ("abs", "round")):
+            import builtins as _b
+            try:
+                r_ = getattr(_b, name)(*args)          # arithmetic on concrete numbers
+            except (ZeroDivisionError, OverflowError, ValueError) as e_:
+                raise RaiseSig(type(e_).__name__, site, name)
+            return AList(list(r_), "tuple") if isinstance(r_, tuple) else r_
+        if name in ("min", "max") and len(args) == 1 and isinstance(args[0], (AList, ASet)) and args[0].items and all(
+                _isnum(x) for x in args[0].items) and set(kwargs) <= {"default"}:
+            return (min if name == "min" else max)(args[0].items)
         if name == "len":
             v = args[0]
             if isinstance(v, (AList, ASet)):
